@@ -1,9 +1,15 @@
 --------------------------- MODULE MCDeterminism ---------------------------
 (* Model-checking shell for Determinism: every batch shape the model explores (size, failing    *)
 (* position) is emitted once as a case the harness materialises as a real LocomotiveSimulationVec *)
-(* and walks serially and under rayon pools of 1, 2, 3, 8, 16 threads.                           *)
+(* and walks serially and under rayon pools of 1, 2, 3, 8, 16 threads. With every batch shape a   *)
+(* consist of 3 + fail (3 .. 3 + N) locomotives with pairwise different ratings (stepped under    *)
+(* pools of 1, 2, 4, 7 workers) and a train of 3, 4 or 5 car types (built 8 times from         *)
+(* separately constructed equal inputs) are emitted: the sizes of the reductions inside an        *)
+(* element (Parts of the model, 3 there).                                                         *)
 EXTENDS Determinism, Json
 
 AtInit == round = 1 /\ pool = Elems /\ Idle /\ result = None
-Emit == AtInit => PrintT(<<"REPLAY", ToJson([kind |-> "batch", n |-> N, fail |-> fail, len |-> 6 + 3 * N, at |-> 1 + N])>>)
+Emit == AtInit => /\ PrintT(<<"REPLAY", ToJson([kind |-> "batch", n |-> N, fail |-> fail, len |-> 6 + 3 * N, at |-> 1 + N])>>)
+                  /\ PrintT(<<"REPLAY", ToJson([kind |-> "consist", n |-> 3 + fail, mix |-> N, steps |-> 4 + 2 * N])>>)
+                  /\ PrintT(<<"REPLAY", ToJson([kind |-> "build", types |-> 3 + (fail % 3), mix |-> N + fail, reps |-> 8])>>)
 =============================================================================
